@@ -501,3 +501,137 @@ def _safe(f, c):
         return bool(f(c))
     except Exception:
         return False
+
+
+def gen_tight_election(rng: random.Random, btypes=("app",), m=(3, 6), n=(2, 6)):
+    """small elections with varied costs, ballots of mixed sizes and a BINDING budget somewhere between the dearest
+    project and the total: several purchase rounds, a rule that overshoots is visible on the total, supporters who have
+    already spent part of their share (Equal Shares) / items at the frontier of the knapsack bound (welfare maximiser)"""
+    sub = rng.getrandbits(48)
+    r = random.Random(sub)
+    btype = r.choice(list(btypes))
+    k = r.randint(*m)
+    names = r.sample(NAME_POOL, k)
+    style = r.random()
+    if style < 0.6:
+        hi = r.choice([4, 6, 9, 12])
+        costs = [F(r.randint(1, hi)) for _ in names]
+    elif style < 0.8:
+        den = r.choice([2, 3, 4, 6])
+        costs = [F(r.randint(1, 4 * den), den) for _ in names]
+    else:
+        base = r.choice([2, 3, 5])
+        costs = [F(base + r.choice([-1, 0, 0, 1, 2])) for _ in names]
+    projects = list(zip(names, costs))
+    tot = sum(costs, F(0))
+    lo = max(costs)
+    u = r.random()
+    if u < 0.5 and tot.denominator == 1 and lo.denominator == 1:
+        budget = F(r.randint(int(lo), int(tot)))
+    elif u < 0.8:
+        budget = lo + (tot - lo) * F(r.randint(0, 8), 8)
+    else:
+        sub_ = [c for c in costs if r.random() < 0.6] or [lo]
+        budget = max(lo, sum(sub_, F(0)))
+    nv = r.randint(*n)
+    ballots = []
+    for _ in range(nv):
+        if btype == "app":
+            p = r.choice([0.3, 0.5, 0.5, 0.7])
+            b = [x for x in names if r.random() < p]
+            if not b and r.random() < 0.8:
+                b = [r.choice(names)]
+            r.shuffle(b)
+        elif btype in ("card", "cum"):
+            b = {x: F(r.choice([1, 1, 2, 3, 5])) for x in names if r.random() < 0.55}
+        else:
+            b = r.sample(names, r.randint(0, k))
+        ballots.append(b)
+    if nv >= 3 and r.random() < 0.3:
+        ballots[-1] = dict(ballots[0]) if isinstance(ballots[0], dict) else list(ballots[0])
+    return Case(projects, budget, btype, ballots, seed=sub)
+
+
+RATIO_POOL = sorted({F(a, b) for a in (1, 2, 3, 5, 7, 14, 21) for b in (1, 2, 3, 4, 5, 6, 10)})
+HUGE = 2**60
+
+
+def gen_proportional_election(rng: random.Random, btypes=("app",), m=(2, 6), n=(2, 8)):
+    """exact-arithmetic stress: the cost of most projects is (total support) x k for one of two rational factors k, so
+    that projects are TIED on support per unit of cost at a value that is usually not a dyadic number, while their costs
+    are of mixed kinds (some integral, some proper fractions — also after a common scaling by 1/3, 10/7, ...); the budget
+    fits only some of them.  Any rounding in the comparison of the ratios changes which project wins."""
+    sub = rng.getrandbits(48)
+    r = random.Random(sub)
+    btype = r.choice(list(btypes))
+    k = r.randint(*m)
+    names = r.sample(NAME_POOL, k)
+    nv = r.randint(*n)
+    ks = [r.choice(RATIO_POOL), r.choice(RATIO_POOL)]
+    if btype == "app":
+        ballots = [[] for _ in range(nv)]
+        support = {}
+        for x in names:
+            s = r.randint(1, nv)
+            for v in r.sample(range(nv), s):
+                ballots[v].append(x)
+            support[x] = F(s)
+        for b in ballots:
+            r.shuffle(b)
+    else:
+        ballots = [dict() for _ in range(nv)]
+        support = {}
+        for x in names:
+            s = r.randint(1, nv)
+            tot = F(0)
+            for v in r.sample(range(nv), s):
+                sc = F(r.choice([1, 1, 2, 3]))
+                ballots[v][x] = sc
+                tot += sc
+            support[x] = tot
+    projects = []
+    for x in names:
+        u = r.random()
+        if u < 0.8:
+            c = support[x] * ks[0 if r.random() < 0.75 else 1]
+        else:
+            c = F(r.choice([1, 2, 3, F(3, 2), F(7, 3), 5]))
+        projects.append((x, c))
+    budget = _binding_budget(r, projects)
+    return Case(projects, budget, btype, ballots, seed=sub)
+
+
+def _binding_budget(r, projects):
+    """a budget that fits a proper part of the projects: the cost of a random non-empty proper subset, sometimes plus
+    half of the cheapest positive cost (so that nothing fits exactly)"""
+    costs = [c for _, c in projects]
+    if len(costs) < 2:
+        return gen_budget(r, projects)
+    sub_ = r.sample(costs, r.randint(1, len(costs) - 1))
+    b = sum(sub_, F(0))
+    pos = [c for c in costs if c > 0]
+    if pos and r.random() < 0.3:
+        b += min(pos) / 2
+    if b <= 0:
+        b = min(pos) if pos else F(1)
+    return F(b)
+
+
+def gen_huge_election(rng: random.Random, m=(2, 5), n=(1, 5)):
+    """exact-arithmetic stress, magnitudes: cardinal scores (and sometimes costs) far above 2**53 whose totals differ by
+    one or two units — differences that any detour through binary floating point erases or invents"""
+    sub = rng.getrandbits(48)
+    r = random.Random(sub)
+    k = r.randint(*m)
+    names = r.sample(NAME_POOL, k)
+    nv = r.randint(*n)
+    big_cost = r.random() < 0.4
+    unit = F(HUGE + r.choice([0, 1, 3])) if big_cost else F(1)
+    pool = r.choice([[1, 1, 2], [2, 2, 3], [1, 2, 3, 3], [F(3, 2), 3, 3]])
+    projects = [(x, F(r.choice(pool)) * unit) for x in names]
+    ballots = []
+    for _ in range(nv):
+        b = {x: F(HUGE * r.choice([1, 1, 2]) + r.choice([0, 0, 1, 2, 3])) for x in names if r.random() < 0.8}
+        ballots.append(b)
+    budget = _binding_budget(r, projects)
+    return Case(projects, budget, "card", ballots, seed=sub)
